@@ -296,6 +296,16 @@ def _exec_enc(f):
               tok(lambda: keep(bitstring.pack([pf], vv())), fmt),
               # value (and length) supplied through keyword arguments named in the format
               tok(lambda: keep(bitstring.pack(pf + "=v_", v_=vv())), fmt)]
+        # the list form with two format strings (twice the encoding), then the single string again: the parse of a format
+        # string must not depend on an earlier list-form call that started with it
+        def twice():
+            r = bitstring.pack([pf, pf], vv(), vv())
+            h = len(r) // 2
+            if len(r) % 2 or r[:h] != r[h:]:
+                raise AssertionError("pack([f, f], v, v) is not the encoding twice")
+            return keep(r[:h])
+        ps.append(tok(twice, fmt))
+        ps.append(tok(lambda: keep(bitstring.pack(pf, vv())), fmt))
         if ln is not None:
             ps.append(tok(lambda: keep(bitstring.pack(f"{name}:n_=v_", n_=ln, v_=vv())), fmt))
             ps.append(tok(lambda: keep(bitstring.pack(f"{name}:n_", vv(), n_=ln)), fmt))
